@@ -108,7 +108,7 @@ class Dm14World:
                 self.respond_results.append((self.w.sim.now, plan.get("tx"), "EXC:%s:%s" % (type(e).__name__, str(e)[:100])))
 
     # ---- client application ----------------------------------------------------
-    def run_client(self, txs, before=None):
+    def run_client(self, txs, before=None, after=None):
         """Run the transactions sequentially in a client application thread."""
         def body():
             for ti, tx in enumerate(txs):
@@ -131,6 +131,8 @@ class Dm14World:
                 res["t1"] = self.w.sim.now
                 res["client_state"] = self.peek_states()
                 self.results.append(res)
+                if after is not None:
+                    after(ti, tx, res)
                 gap = tx.get("gap_after", 0.05)
                 if gap:
                     sk.FAKE_TIME.sleep(gap)
